@@ -35,3 +35,22 @@ for f in r['findings']:
         else:
             print('%-60s -> %s' % (re.sub(r'([0-9a-f]{48})', lambda m: dec(m.group(1)), l)[:110], i[:100]))
     break
+
+# disagreement mode: python3 showloop.py result.json --dis
+if want == '--dis':
+    for f in r['findings']:
+        if f['kind'] != 'disagreement': continue
+        n = next(i for i, (a, b) in enumerate(zip(f['impl'], f['model'])) if a != b)
+        print('===== first difference at line', n, 'of', len(f['lines']))
+        for idx, (l, i) in enumerate(zip(f['lines'][:n + 1], f['impl'][:n + 1])):
+            if l.startswith('prop.loop.check'): continue
+            l = re.sub(r'40000000000(\d{8})', lambda m: 'N' + str(int(m.group(1)) // 10000), l)
+            outs = [('I', i)] if idx < n else [('I', i), ('M', f['model'][idx])]
+            for tag, o in outs:
+                if o.startswith('at '):
+                    m = re.match(r'at (.*?) B(\S*) (.*) T(\d+)$', o)
+                    b = re.sub(r'40000000000(\d{8})', lambda m: 'N' + str(int(m.group(1)) // 10000), m.group(2))
+                    print('%s %-30s -> %-16s T%s B[%s] %s' % (tag, l[:30], m.group(1), m.group(4), b, env(m.group(3))))
+                else:
+                    print('%s %-60s -> %s' % (tag, re.sub(r'([0-9a-f]{48})', lambda m: dec(m.group(1)), l)[:100], o[:100]))
+        break
